@@ -29,7 +29,7 @@ RULE = ('Two generated ledgers, an optional valid prefix of 0-3 edits on the fir
         'target slot/list is non-empty, or the call site has present siblings.')
 ASSUMPTIONS = ['any exception type counts as a refusal', 'a node that is the whole of its own store is not "living elsewhere"']
 SHRINK_LISTS = ('ops', 'dirs', 'dirs2')
-REQUIRED_CLASSES = ('a:attached', 'b:index-key', 'c:size-mismatch', 'd:comments', 'f:rawtext', 'g:arith', 'h:foreign-spacing', 'i:reverse',
+REQUIRED_CLASSES = ('released-comment', 'a:attached', 'b:index-key', 'c:size-mismatch', 'd:comments', 'f:rawtext', 'g:arith', 'h:foreign-spacing', 'i:reverse',
                     'raised', 'nonfirst-in-batch')
 
 
@@ -194,6 +194,33 @@ def resolve_bad(root: Any, other: Any, op: dict) -> Bad:
         b.cls, b.must_raise, b.key = 'a:attached', True, f'consumed-node-reused:{p.kind}'
         b.what = f'{type(P2).__name__}.{p.name} given the {type(x).__name__} that was just moved into another {type(P1).__name__}'
         b.nontrivial = True
+        return b
+    if k == 'released-comment':
+        # a comment released by its owner (documented unclaim_*) still lives in the document; handing it to another model's comment slot, or into
+        # a list, must be refused - and the refusal must not touch the comment's ownership flag either
+        owners = [m for ms in idx.values() for m in ms if hasattr(m, 'unclaim_leading_comment')]
+        side = op['side']
+        have = [m for m in owners if vars(m).get('_' + side + '_comment') is not None]
+        if not have:
+            raise OPS.NotApplicable('no owned comment')
+        src = have[op.get('sel', 0) % len(have)]
+        takers = [m for m in owners if m is not src and vars(m).get('_' + op['into'] + '_comment') is None and
+                  bool(getattr(m, 'indent', '')) == bool(getattr(src, 'indent', ''))]
+        if not takers:
+            raise OPS.NotApplicable('no model with an empty comment slot')
+        dst = takers[op.get('sel2', 0) % len(takers)]
+        box: dict = {}
+
+        def setup() -> None:
+            box['c'] = getattr(src, 'unclaim_' + side + '_comment')()
+        b.setup = setup
+        b.call = lambda: setattr(dst, 'raw_' + op['into'] + '_comment', box['c'])
+        b.cls, b.must_raise, b.key = 'a:attached', True, f'released-comment-given-to-another-owner:{op["into"]}'
+        b.what = (f'{type(dst).__name__}.raw_{op["into"]}_comment given the comment that {type(src).__name__}.unclaim_{side}_comment() released '
+                  f'(it still lives in the document)')
+        b.nontrivial = True
+        classes_extra = 'released-comment'
+        b.extra_class = classes_extra
         return b
     if k == 'wholefield':
         # model.raw_xs = other_model.raw_xs : the list still lives in the other model
@@ -545,6 +572,8 @@ def run_case(case: dict) -> Result:
             except Exception as e:  # noqa: BLE001
                 raised = e
             classes.add(b.cls)
+            if getattr(b, 'extra_class', None):
+                classes.add(b.extra_class)
             if op.get('pos', 0) > 0:
                 classes.add('nonfirst-in-batch')
             if raised is not None:
@@ -804,6 +833,21 @@ def _enum_custom_ctor():
                 yield {'dirs': doc, 'dirs2': doc, 'ops': [{'f': 'bad', 'k': 'custom-ctor', 'how': how, 'sel': sel, 'src_other': src_other}]}
 
 
+def _enum_released():
+    from vf.gen import sweeps
+    n = 0
+    for g, chunks, root in sweeps.sweep_docs(400, seed=1920):
+        owners = [m for ms in OPS.index_models(root).values() for m in ms if hasattr(m, 'unclaim_leading_comment')]
+        for side in ('leading', 'trailing'):
+            have = [m for m in owners if vars(m).get('_' + side + '_comment') is not None]
+            if not have:
+                continue
+            for into in ('leading', 'trailing'):
+                for sel in range(min(2, len(have))):
+                    yield {'dirs': chunks, 'dirs2': chunks, 'ops': [{'f': 'bad', 'k': 'released-comment', 'side': side, 'into': into, 'sel': sel, 'sel2': n}]}
+                    n += 1
+
+
 def _enum_attached():
     """Every node-accepting slot and list of every class, in each presence state: assignment of a node that still lives elsewhere in the document."""
     import collections
@@ -844,5 +888,6 @@ def _enum_attached():
 def jobs(tier: str) -> list[Job]:
     return [Job('refusals', 'hyp', lambda: _build(tier), 4000 if tier == 'quick' else 150000),
             Job('attached-sweep', 'enum', _enum_attached, exhaustive=True),
+            Job('released-comments', 'enum', _enum_released, exhaustive=True),
             Job('custom-constructor-attached', 'enum', _enum_custom_ctor, exhaustive=True),
             Job('cost-forms', 'enum', lambda: _enum_costforms(2 if tier == 'quick' else 3), exhaustive=True)]
